@@ -203,6 +203,9 @@ class P:
         raise ValueError(kind)
 
     def is_zero(self, v):
+        if v[0] == "rec":  # an all-integer structure whose members are all zero
+            return all(self.is_zero(x) or x[0] == "void" or (x[0] in ("list", "bytes", "wstr") and len(x) == 1) or (x[0] == "bytes" and not x[1])
+                       for x in v[1:])
         return (v[0] in ("int", "enum", "ptr") and v[1] == 0) or (v[0] == "flt" and v[1] in (0,))
 
     def value(self, ty, pos, ctx):
